@@ -511,8 +511,21 @@ pub struct KSummary {
     pub harness: Option<String>,
 }
 
+/// small programs that never print (state a process keeps about "has printed" or "uses the print
+/// runtime" must not leak from earlier compilations into theirs), and one that does
+const SILENT: [(&str, &str); 7] = [
+    ("silent:zero", "def main(): i64 { 0 }\n"),
+    ("silent:arith", "def main(n: i64): i64 { (n * 3) + 1 }\n"),
+    ("silent:if", "def main(n: i64, m: i64): i64 { if n < m { n } else { m - n } }\n"),
+    ("silent:list", "data List[A] { Nil, Cons(x: A, xs: List[A]) }\ndef len(l: List[i64]): i64 { l.case[i64] { Nil => 0, Cons(x, xs) => 1 + len(xs) } }\ndef main(n: i64): i64 { len(Cons(n, Cons(2, Nil))) }\n"),
+    ("silent:closure", "codata Fun[A, B] { apply(x: A): B }\ndef main(n: i64): i64 { let f: Fun[i64, i64] = new { apply(x) => x + n }; f.apply[i64, i64](5) }\n"),
+    ("silent:label", "def main(n: i64): i64 { label k { 1 + (if n == 0 { goto k(7) } else { n }) } }\n"),
+    ("loud:hello", "def main(): i64 { println_i64(7); 0 }\n"),
+];
+
 fn programs_for(seed: u64, tier: &str) -> Vec<(String, String)> {
     let mut v = corpus();
+    v.extend(SILENT.iter().map(|(n, s)| (n.to_string(), s.to_string())));
     let n = if tier == "thorough" { 6000 } else { 400 };
     for i in 0..n {
         let mut rng = Rng::keyed(seed, i, "k-fun");
@@ -528,6 +541,20 @@ pub fn kworker(tier: &str, seed: u64, w: u64, n: u64) -> i32 {
     for k in ["TERM", "NO_COLOR", "COLUMNS", "LANG", "RUST_BACKTRACE", "CLICOLOR_FORCE"] {
         if let Ok(v) = std::env::var(k) {
             sum.env.insert(k.to_string(), v);
+        }
+    }
+    // before anything else: the programs that never print, as the first compilations of this OS
+    // process (odd workers) or right after a program that prints (even workers); the hashes are
+    // compared across the worker processes, which is the only place where state that a process
+    // keeps for its whole life can be seen
+    for (pi, (name, src)) in SILENT.iter().enumerate().take(SILENT.len() - 1) {
+        let history = if w % 2 == 0 { vec![Step::Compile(SILENT[SILENT.len() - 1].1.to_string())] } else { vec![] };
+        let inst = Instance { via_driver: false, keys: Rng::keyed(seed, w * 7919 + pi as u64, "k-first").next() | 1, history, repeat: 0, order: 0 };
+        sum.instances += 1;
+        sum.compilations += 1;
+        if let Ok(r) = run_instance(src, &inst) {
+            let hs: Vec<u64> = r.iter().enumerate().map(|(s, t)| hash_str(&canon(s, t))).collect();
+            sum.corpus_hashes.insert(format!("first:{name}"), hs);
         }
     }
     let stdout = std::io::stdout();
@@ -562,8 +589,13 @@ pub fn kworker(tier: &str, seed: u64, w: u64, n: u64) -> i32 {
                 let order = if via_driver && rng.pct(70) { rng.next() | 1 } else { 0 };
                 Instance { via_driver, keys: rng.next() | 1, history, repeat: [0, 0, 1, 2][rng.below(4)], order }
             };
-            let a = mk(&mut rng);
-            let b = mk(&mut rng);
+            let mut a = mk(&mut rng);
+            let mut b = mk(&mut rng);
+            if name.starts_with("silent:") {
+                // one process has compiled nothing before, the other a program that prints
+                a.history.clear();
+                b.history = vec![Step::Compile(SILENT[SILENT.len() - 1].1.to_string())];
+            }
             sum.histories += 1;
             sum.instances += 2;
             sum.compilations += (a.history.len() + b.history.len() + a.repeat + b.repeat + 2) as u64;
